@@ -76,6 +76,8 @@ M = [
  ('C18-c', 'C18', 'core/matcher.py', "    while i > 0 and _is_letter(text[i - 1]):", "    while i >= 0 and _is_letter(text[i - 1]):", 1),
  ('C18-d', 'C18', 'core/matcher.py', "    while i <= len(text):\n        c = text[i] if i < len(text) else ''", "    while i <= len(text):\n        c = text[i] if i <= len(text) else ''", 1),
  ('C18-e', 'C18', 'core/matcher.py', "    '\"' : '\"',\n}", "}", 1),
+ ('C18-f', 'C18', 'core/matcher.py', "    elif text and ord(text[0]) >= ord('0') and ord(text[0]) <= ord('9'):", "    elif ord(text[0]) >= ord('0') and ord(text[0]) <= ord('9'):", 1),
+ ('C18-g', 'C18', 'core/matcher.py', "        try:\n            return EqMatcher(int(text))\n        except ValueError:", "        try:\n            return EqMatcher(int(text))\n        except TypeError:", 1),
  ('C16-a', 'C16', 'frontends/tui/controller.py', 'if delta > 1.0:', 'if delta >= 1.0:', 1),
  ('C16-b', 'C16', 'frontends/tui/controller.py', "                ')')\n            self.last_shown_timestamp = None", "                ')')", 1),
  ('C06-a', 'C06', 'frontends/tui/controller.py', 'if self.current_connection is None or connection == self.current_connection:', 'if True:', 1),
